@@ -131,7 +131,7 @@ func (r *Result) SetMembers(set string) []string {
 }
 
 const maxSamples = 12
-const maxViolationsKept = 4000
+const maxViolationsKept = 20000
 
 func (r *Result) Sample(s interface{}) {
 	r.mu.Lock()
@@ -141,7 +141,40 @@ func (r *Result) Sample(s interface{}) {
 	r.mu.Unlock()
 }
 
+// knownCases is loaded once per process (also in shard workers): a violation
+// whose class AND case are listed is counted, not stored, so that a long list
+// of known cases can never crowd a new violation out of the kept list.
+var (
+	knownOnce  sync.Once
+	knownCases map[string]map[string]bool // class -> case -> true, for the property being checked
+	knownProp  string
+	emitKnown  bool
+)
+
+func loadKnownFor(prop string) {
+	knownCases = map[string]map[string]bool{}
+	for _, f := range loadKnown().Findings {
+		if f.Property != prop {
+			continue
+		}
+		m := knownCases[f.Class]
+		if m == nil {
+			m = map[string]bool{}
+			knownCases[f.Class] = m
+		}
+		for _, cs := range f.Cases {
+			m[cs] = true
+		}
+	}
+}
+
 func (r *Result) Violate(v Violation) {
+	if !emitKnown && knownCases != nil && knownCases[v.Class][v.Case] {
+		r.mu.Lock()
+		r.Counts["known:"+v.Class]++
+		r.mu.Unlock()
+		return
+	}
 	r.mu.Lock()
 	r.Counts["violations_raw"]++
 	if len(r.Violations) < maxViolationsKept {
@@ -311,16 +344,16 @@ func Main() {
 		return
 	}
 	var (
-		prop    = flag.String("prop", "", "property id")
-		tier    = flag.String("tier", envOr("VERIF_TIER", "quick"), "quick|thorough")
-		j       = flag.Int("j", runtime.NumCPU(), "parallelism")
-		worker  = flag.Bool("worker", false, "run as a shard worker")
-		shard   = flag.String("shard", "0/1", "i/n")
-		out     = flag.String("out", "", "worker result file")
-		replay  = flag.String("replay", "", "replay file")
-		emit    = flag.Bool("emit-known", false, "print failing classes/cases as known_findings JSON instead of a verdict (maintenance only)")
-		budget  = flag.Duration("budget", 0, "soft wall-clock budget")
-		repo    = flag.String("repo", envOr("VERIF_REPO", "/repo"), "repository root the binary was built from")
+		prop   = flag.String("prop", "", "property id")
+		tier   = flag.String("tier", envOr("VERIF_TIER", "quick"), "quick|thorough")
+		j      = flag.Int("j", runtime.NumCPU(), "parallelism")
+		worker = flag.Bool("worker", false, "run as a shard worker")
+		shard  = flag.String("shard", "0/1", "i/n")
+		out    = flag.String("out", "", "worker result file")
+		replay = flag.String("replay", "", "replay file")
+		emit   = flag.Bool("emit-known", false, "print failing classes/cases as known_findings JSON instead of a verdict (maintenance only)")
+		budget = flag.Duration("budget", 0, "soft wall-clock budget")
+		repo   = flag.String("repo", envOr("VERIF_REPO", "/repo"), "repository root the binary was built from")
 	)
 	flag.Parse()
 	p := registry[*prop]
@@ -343,6 +376,8 @@ func Main() {
 	}
 	fmt.Sscanf(*shard, "%d/%d", &c.Shard, &c.NShards)
 
+	emitKnown = *emit
+	loadKnownFor(p.ID)
 	if *replay != "" {
 		if p.Replay == nil {
 			fmt.Fprintln(os.Stderr, "no replay for", p.ID)
@@ -392,6 +427,9 @@ func runSharded(c *Ctx, p *Prop, budget time.Duration) *Result {
 			args := []string{"-prop", p.ID, "-tier", c.Tier, "-worker", "-shard", fmt.Sprintf("%d/%d", i, n), "-out", out, "-j", "1", "-repo", c.Repo}
 			if budget > 0 {
 				args = append(args, "-budget", budget.String())
+			}
+			if emitKnown {
+				args = append(args, "-emit-known")
 			}
 			args = append(args, c.Args...)
 			cmd := exec.Command(self, args...)
@@ -487,6 +525,11 @@ func finish(c *Ctx, p *Prop, r *Result, emit bool) int {
 	}
 	var fresh []Violation
 	knownSeen := map[string]int{}
+	for k, n := range r.Counts {
+		if strings.HasPrefix(k, "known:") {
+			knownSeen[strings.TrimPrefix(k, "known:")] += int(n)
+		}
+	}
 	for _, v := range r.Violations {
 		if known[v.Class][v.Case] {
 			knownSeen[v.Class]++
